@@ -199,6 +199,23 @@ def run(ctx):
             elif l.startswith('{"stats"'):
                 for k, v in json.loads(l)["stats"].items():
                     stats[k] = stats.get(k, 0) + v
+    # non-terminating programs under a finite budget: must stop, out of energy, within `budget` ticks
+    rc, out = c.run_bin(binp, ["spin", 20000], timeout=90)
+    spin_lines = [json.loads(l) for l in out.splitlines() if l.startswith("{")]
+    spins = [l for l in spin_lines if "spin" in l]
+    starts = [l for l in spin_lines if "START" in l]
+    if rc != 0 or len(spins) != len(starts) or len(spins) < 16:
+        hung = starts[len(spins)] if len(starts) > len(spins) else {"START": "?"}
+        ctx.violation({"layer": "budget bounds execution", "program": hung, "budget": 20000, "rc": rc,
+                       "what": "the real engine did not stop this metered program under a finite energy budget "
+                               "(killed after 90 s / watchdog): some control-flow cycle is not charged"},
+                      "a metered non-terminating program (%s, %s) does not run out of energy" % (hung.get("START"), hung.get("cfg")))
+    for sp in spins:
+        if sp["out"] != "ooe" or sp["rem"] != "0" or sp["ticks"] > 20000 or sp["nev"] > 3 * 20000 + 3:
+            ctx.violation({"layer": "budget bounds execution", "case": sp},
+                          "non-terminating program %s (%s) under budget 20000: outcome %s after %d events" % (sp["spin"], sp["cfg"], sp["out"], sp["nev"]))
+    ctx.notes["spin_programs"] = {"n": len(spins), "max_events": max([sp["nev"] for sp in spins] + [0])}
+    ctx.cov["evaluations"] += len(spins)
     # regression corpus
     corp = os.path.join(c.VERIF, "corpus", "C02", "programs.txt")
     if os.path.exists(corp):
